@@ -18,7 +18,7 @@ use std::time::Duration;
 pub const META: Meta = Meta {
     id: "C18",
     level: "fault_enumeration",
-    rule: "Real files in a scratch directory: sizes {0,1,65535,65536,65537,131072,200001} x every range whose ends lie on, one before or one after each 64 KiB read boundary (plus 0, 1, size-1, size; empty and whole ranges) read through get_range and through serve() with a Range header; truncation of the file to each of {0, start, start+1, a boundary-1, a boundary, end-1} between construction and poll k for every k; growth after construction; metadata and ETag under re-open, append, set_modified(+-1 ns, +-1 s), replacement by a same-length same-mtime file; directories and /dev/null as non-regular files; two or three streams of one entity polled alternately. Oracle: std::fs (file bytes, Metadata), non-empty chunks, clean end or an error (never a short clean end, never an empty chunk) within a poll budget owned by the harness. Non-trivial = range crossing a 64 KiB boundary, or a truncation that hits mid-stream; distinct by fingerprint of case.",
+    rule: "Real files in a scratch directory: sizes {0,1,65535,65536,65537,131072,200001} x every range whose ends lie on, one before or one after each 64 KiB read boundary (plus 0, 1, size-1, size; empty and whole ranges) read through get_range and through serve() with a Range header; truncation of the file to each of {0, start, start+1, a boundary-1, a boundary, end-1} between construction and poll k for every k; growth after construction; metadata and ETag under re-open, append, set_modified(+-1 ns, +-1 s), replacement by a same-length same-mtime file; directories and /dev/null as non-regular files; two or three streams of one entity polled alternately; ranges of 2^32 bytes and more on sparse files (first chunks). Oracle: std::fs (file bytes, Metadata), non-empty chunks, clean end or an error (never a short clean end, never an empty chunk) within a poll budget owned by the harness. Non-trivial = range crossing a 64 KiB boundary, or a truncation that hits mid-stream; distinct by fingerprint of case.",
     assumptions: &[
         "sandbox filesystem semantics (regular files give full reads; running as root, permission errors are not explored)",
         "an ETag difference after a metadata change is demanded only when std::fs::Metadata itself reports the change",
@@ -264,6 +264,39 @@ async fn interleaved_case(dir: &Path, size: u64, ranges: &[(u64, u64)], order_se
             streams[i].1.iter().zip(want.iter()).position(|(x, y)| x != y)
         );
     }
+    Ok(())
+}
+
+/// Sparse files of 4 GiB and more (all zeros, no disk space): ranges longer than 2^32 bytes,
+/// read for a few chunks only.
+async fn sparse_case(dir: &Path, size: u64, start: u64, end: u64, polls: u32) -> Result<(), Fail> {
+    let p = dir.join("sparse");
+    {
+        let f = File::create(&p).expect("create");
+        f.set_len(size).expect("set_len (sparse)");
+    }
+    let crf = Crf::new(File::open(&p).expect("open"), http::HeaderMap::new()).map_err(|e| Fail { sig: "construct-failed".into(), msg: e.to_string() })?;
+    ensure!(crf.len() == size, "len-differs", "len() is {}, the sparse file has {size} bytes", crf.len());
+    let what = format!("sparse file of {size} bytes, range {start}..{end}");
+    let mut s = crf.get_range(start..end);
+    let mut got = 0u64;
+    for i in 0..polls {
+        match next(&mut s).await {
+            Item::Panic(m) => return fail("panic", format!("poll {i} panicked: {m}; {what}")),
+            Item::End => {
+                ensure!(got == end - start, "short-clean-end", "stream ended after {got} of {} bytes; {what}", end - start);
+                break;
+            }
+            Item::Err(e) => return fail("sparse:error", format!("poll {i} failed ({e}) after {got} bytes although the file was not touched; {what}")),
+            Item::Data(d) => {
+                ensure!(!d.is_empty(), "empty-chunk", "poll {i} yielded an empty chunk after {got} bytes; {what}");
+                ensure!(d.iter().all(|b| *b == 0), "bytes-differ", "non-zero bytes from a sparse file; {what}");
+                got += d.len() as u64;
+                ensure!(got <= end - start, "too-many-bytes", "{got} bytes for a range of {}; {what}", end - start);
+            }
+        }
+    }
+    let _ = std::fs::remove_file(&p);
     Ok(())
 }
 
@@ -566,6 +599,35 @@ pub fn run(cx: &Cx) -> Acc {
             });
         }));
     }
+    // Ranges of 2^32 bytes and more on sparse files.
+    {
+        let g: u64 = 1 << 32;
+        let cases: Vec<(u64, u64, u64)> = vec![
+            (g, 0, g),
+            (g + 70_000, 0, g + 70_000),
+            (g + 70_000, 5, g + 70_000),
+            (2 * g, 0, 2 * g),
+            (2 * g + 1, 1, 2 * g + 1),
+            (g + 131_072, 0, g + 131_072),
+            (g + 70_000, g - 10, g + 70_000),
+            (3 * g, g + 7, 3 * g - 9),
+            (g + 65_536, 65_536, g + 65_536),
+        ];
+        acc.merge(par_units(cx, "sparse-4gib", &cases, false, "ranges of 2^32 bytes and more on sparse files, first chunks only", |cx, &(size, a, b), acc| {
+            let scratch = Scratch::new(&format!("c18s-{size}-{a}"));
+            let case = json!({"sparse": {"size": size, "start": a, "end": b}});
+            let dir = scratch.dir.clone();
+            with_runtime(|rt| {
+                let ok = acc.run_case(cx, "sparse-4gib", &case, |_| match rt.block_on(rt.spawn(async move { sparse_case(&dir, size, a, b, 6).await })) {
+                    Ok(r) => r,
+                    Err(e) => fail("panic", format!("task panicked: {e}")),
+                });
+                if ok {
+                    acc.note("sparse-4gib", true, crate::util::mix(size, a), || case.clone());
+                }
+            });
+        }));
+    }
     let sizes: Vec<u64> = SIZES.to_vec();
     acc.merge(par_units(cx, "metadata", &sizes, true, "re-open, mtime +-1ns/+-1s, append, same-length same-mtime replacement; non-regular files", |cx, &size, acc| {
         let scratch = Scratch::new(&format!("c18m-{size}"));
@@ -586,6 +648,14 @@ pub fn replay(_cx: &Cx, _phase: &str, case: &Value, acc: &mut Acc) -> Check {
     }
     if case.get("nonregular").is_some() {
         return nonregular_checks(&scratch.dir, acc);
+    }
+    if let Some(sp) = case.get("sparse") {
+        let (size, a, b) = (sp["size"].as_u64().unwrap_or(0), sp["start"].as_u64().unwrap_or(0), sp["end"].as_u64().unwrap_or(0));
+        let dir = scratch.dir.clone();
+        return with_runtime(|rt| match rt.block_on(rt.spawn(async move { sparse_case(&dir, size, a, b, 6).await })) {
+            Ok(r) => r,
+            Err(e) => fail("panic", format!("task panicked: {e}")),
+        });
     }
     if let Some(i) = case.get("interleaved") {
         let size = i["size"].as_u64().unwrap_or(0);
